@@ -38,7 +38,7 @@ REGEX_FILES = {
     'C18': ['markdown/util.py', 'markdown/postprocessors.py'],
 }
 
-add('C01', ['C01Spec', 'C01'], ['corr.doc'] + PIPE,
+add('C01', ['C01Spec', 'C01', 'C01b', 'C01c'], ['corr.doc'] + PIPE,
     'Lean 4: specification `spec : Doc → html` of the construct grammar + print; theorems on the pipeline model for sub-grammars; spec and model both tied to the implementation by correspondence',
     'PARTIAL: the print-then-parse theorem is proved only for the sub-grammar named in Props/C01*.lean; for the rest of the grammar the Lean `spec` is compared with the implementation by correspondence and search only.')
 add('C02', ['C02Block', 'C02Inline'], PIPE + ['corr.extract', 'corr.code'],
@@ -50,7 +50,7 @@ add('C03', ['C03Code', 'C03'], ['corr.code'] + PIPE,
 add('C04', ['C04'], ['corr.extract'],
     'Lean 4 proofs over an event-level model of HTMLExtractor (state machine over tokenizer events) and of the raw-HTML restore: a balanced block is stashed verbatim exactly once and restored unwrapped; events recorded from the real parser are replayed in the model',
     'PARTIAL: the stdlib tokenizer that produces the events is trusted, not modelled (F-C04-1 lives there); blocks starting while `intail`, md_in_html and multi-pass restore are covered by correspondence/search only.')
-add('C05', ['C05Block', 'C05', 'C14'], PIPE + ['corr.serializer'],
+add('C05', ['C05Block', 'C05', 'C05Amp', 'C14'], PIPE + ['corr.serializer'],
     'Lean 4 proofs: vocabulary/void invariant of every tree the block (and inline) model builds + serializer round-trip theorem (strict reader accepts the output and reads back the tree)',
     'PARTIAL: the composition to the final output string is proved as far as Props/C05*.lean state; the `&`/entity-stash case rests on correspondence. "Entity reference" is read as the code reads it (digit-initial names allowed).')
 add('C06', ['C06Block', 'C06Inline', 'C06'], PIPE,
@@ -62,7 +62,7 @@ add('C07', ['C07Block', 'C07'], PIPE + ['corr.normalize'],
 add('C08', ['C08Block', 'C08Inline', 'C08'], PIPE,
     'Lean 4 locality proofs on the block model (processors never look past blocks[0]; the parent is read only through its last child) and stash-counter independence of the inline model',
     'PARTIAL: as far as Props/C08*.lean state; the composition of both halves rests on correspondence where not proved.')
-add('C09', ['C09'], ['corr.normalize', 'corr.pipeline'],
+add('C09', ['C09', 'C09Doc'], ['corr.normalize', 'corr.pipeline'],
     'Lean 4 proofs about the model of NormalizeWhitespace (line endings, tabs, STX/ETX, whitespace-only lines, leading/trailing blank lines), stated for the step list regenerated from the source; unit correspondence for tab lengths 0-8',
     'PARTIAL: the normalisation theorems are full; the lift "the rest of convert reads only the normalised text" is by construction of the pipeline model and end-to-end correspondence. F-C09-1 (whitespace-only first line) was repaired (fix: commit a0e7e3c); the first-line theorems are now unconditional.')
 add('C10', ['C10', 'C09'], PIPE,
@@ -80,7 +80,7 @@ add('C13', ['C13'], ['corr.registry'],
 add('C14', ['C14'], ['corr.serializer', 'corr.pipeline'],
     'Lean 4 proofs for all strings and trees: escape/read-back, idempotence, entity pass-through, serialise-then-strict-read round trip in both formats, html/xhtml read back equal',
     'Tree level full; document level PARTIAL (the format leaks into stashed HTML through md.serializer inside HtmlInlineProcessor.unescape, toc, md_in_html): checked by correspondence and search. F-C14-1 (void element with text) is a kernel-checked counterexample.')
-add('C15', ['C15', 'C15Inline'], PIPE,
+add('C15', ['C15', 'C15Inline', 'C15Forms'], PIPE,
     'Lean 4 proofs on the block model: the reference-definition recogniser accepts every title spelling, a definition adds exactly one map entry and no node, position independence, label normalisation',
     'PARTIAL: the rendering of the resolved link (inline stage) rests on correspondence where not proved.')
 add('C16', ['C16Tables', 'C16Triggers', 'C16AttrList', 'C16Fenced', 'C16BlockExt', 'C16Order'],
